@@ -175,10 +175,10 @@ theorem C01_step_basic (d : DF) (s : Step) (h : Inv d) (hs : s.WF d.eval.cols)
       obtain ⟨v, _, x, _, rfl⟩ := hr
       simp [unpivotTable]
     let U := unpivotTable d.eval ids vals var val
-    have hf : Fresh ({ src := U, blk := { sel := identSel U.cols }, last := (enter .select d).last } : DF) :=
-      ⟨hU, rfl, rfl, rfl, rfl, rfl⟩
+    have hf : ∀ hh, Fresh ({ src := U, blk := { sel := identSel U.cols }, last := (enter .select d).last, hist := hh } : DF) :=
+      fun _ => ⟨hU, rfl, rfl, rfl, rfl, rfl⟩
     simp only [DF.apply, tag_unpivot, wrapper_eq _ hop, specStep, unpivotDistinct, Bool.false_eq_true, if_false, he]
-    exact ⟨fresh_eval _ (hf.setLast _), (hf.setLast _).inv, fun _ => by simp⟩
+    exact ⟨fresh_eval _ ((hf _).setLast _), ((hf _).setLast _).inv, fun _ => by simp⟩
 
 /-- `dropna`: its body runs three decorated calls (select-append of the helper column, where, re-select);
     each is an instance of `C01_step_basic`, and their composition is the null-count filter. -/
